@@ -30,6 +30,9 @@ TNext ==
     \/ (Is("XRank") /\ Keep /\ Ev.rank = RankOf(Ev.s) /\ UNCHANGED vars)
     \* work pushed to a live, running stream completes there and sees the stream's rank
     \/ (Is("XWork") /\ Keep /\ xst[Ev.s] = "running" /\ Ev.done = 1 /\ Ev.rank = RankOf(Ev.s) /\ UNCHANGED vars)
+    \* the life cycle is repeatable without anything piling up: after a warm-up, n further create / work / join / revive /
+    \* free cycles leave the number (and size) of blocks held from the system allocator where it was (two blocks of slack)
+    \/ (Is("XCycle") /\ Keep /\ Ev.live1 <= Ev.live0 + 2 /\ Ev.kb1 <= Ev.kb0 + 4096 /\ UNCHANGED vars)
     \/ (Is("XSched") /\ Keep /\ Ev.ret = 0 /\ UNCHANGED vars)
     \/ (Is("End") /\ Keep /\ UNCHANGED vars)
     \* ---- concurrent creators: linearizability
